@@ -18,7 +18,7 @@ MODELS_USED = set()
 
 
 def _has_sym(x, depth=0):
-    if isinstance(x, (SymBase, SymNd)):
+    if isinstance(x, (SymBase, SymNd, SymPts)):
         return True
     if depth < 3 and isinstance(x, (tuple, list)):
         return any(_has_sym(e, depth + 1) for e in x)
@@ -51,6 +51,8 @@ def _m_floor(x, *a, **k):
 
     if isinstance(x, SymBase):
         return sym_float(m_floor(x))  # numpy floor returns float
+    if isinstance(x, SymNd) and x.ndim == 1:
+        return SymNd([_m_floor(v) if isinstance(v, SymBase) else _np.floor(v) for v in x.data])
     raise Unsupported("numpy.floor on a non-scalar symbolic value")
 
 
@@ -59,6 +61,8 @@ def _m_ceil(x, *a, **k):
 
     if isinstance(x, SymBase):
         return sym_float(m_ceil(x))
+    if isinstance(x, SymNd) and x.ndim == 1:
+        return SymNd([_m_ceil(v) if isinstance(v, SymBase) else _np.ceil(v) for v in x.data])
     raise Unsupported("numpy.ceil on a non-scalar symbolic value")
 
 
@@ -69,14 +73,28 @@ def _m_abs(x, *a, **k):
 
 
 def _m_isfinite(x, *a, **k):
+    if isinstance(x, SymPts):
+        return _AllTrue()
     if isinstance(x, SymBase):
         return True
     raise Unsupported("numpy.isfinite on a non-scalar symbolic value")
 
 
-def _m_clip(x, lo, hi, *a, **k):
+def _m_clip(x, lo, hi, *a, out=None, **k):
     if isinstance(x, (tuple, list)):
         raise Unsupported("numpy.clip on a symbolic array")
+    if isinstance(x, SymNd):
+        if x.ndim != 1 or a or k:
+            raise Unsupported("numpy.clip on this symbolic array")
+        vals = [_m_clip(v, lo, hi) for v in x.data]
+        if out is not None:
+            if out is not x:
+                raise Unsupported("numpy.clip(out=) into another array")
+            x.data[:] = vals  # in place, like numpy
+            return x
+        return SymNd(vals, x.dtype)
+    if out is not None:
+        raise Unsupported("numpy.clip(out=) on a scalar")
     r = x
     if lo is not None:
         r = ite(r < lo, lo, r)
@@ -91,12 +109,81 @@ def _m_isclose(a, b, rtol=1e-05, atol=1e-08, equal_nan=False):
     return abs(a - b) <= (atol + rtol * abs(b))
 
 
+def _And(a, b):
+    return sym.SymBool(__import__("z3").And(sym.to_bool_term(a), sym.to_bool_term(b)))
+
+
 class SymNd:
     """Tiny model of an ndarray holding proxies: a (nested) python list with the handful of numpy
     operations the code base applies to small index arrays (assumed numpy meaning)."""
 
-    def __init__(self, data):
+    def __init__(self, data, dtype=None):
         self.data = data
+        self.dtype = dtype  # "int32": every arithmetic result must fit (an OBLIGATION, numpy would wrap silently)
+
+    # -- elementwise arithmetic on 1-d arrays (with a scalar or an equally long 1-d array) ------------------------
+    def _ew(self, o, f, what):
+        if self.ndim != 1:
+            raise Unsupported("arithmetic on a 2-d symbolic array")
+        if isinstance(o, SymNd):
+            if o.ndim != 1 or len(o.data) != len(self.data):
+                raise Unsupported("array arithmetic with mismatched shapes")
+            vals = [f(a, b) for a, b in zip(self.data, o.data)]
+            dt = self.dtype if self.dtype == o.dtype else None
+        elif isinstance(o, (list, tuple)):
+            raise Unsupported("array arithmetic with a python sequence")
+        else:
+            vals = [f(a, o) for a in self.data]
+            dt = self.dtype if (isinstance(o, int) and not isinstance(o, bool)) or type(o).__name__ == "SymInt" else None
+        out = SymNd(vals, dt)
+        out._check_width(what)
+        return out
+
+    def _check_width(self, what):
+        if self.dtype == "int32":
+            from .sym import ctx
+
+            for k, v in enumerate(self.data):
+                if isinstance(v, SymBase):
+                    ctx().check(_And(-(2**31) <= v, v < 2**31), f"int32-no-overflow:{what}", kind="library-pre", note="an int32 array element must stay within [-2**31, 2**31): numpy wraps silently")
+                elif not -(2**31) <= v < 2**31:
+                    raise Unsupported("int32 overflow on a concrete value")
+
+    def __add__(self, o):
+        return self._ew(o, lambda a, b: a + b, "add")
+
+    __radd__ = __add__
+
+    def __sub__(self, o):
+        return self._ew(o, lambda a, b: a - b, "sub")
+
+    def __rsub__(self, o):
+        return self._ew(o, lambda a, b: b - a, "rsub")
+
+    def __mul__(self, o):
+        return self._ew(o, lambda a, b: a * b, "mul")
+
+    __rmul__ = __mul__
+
+    def __mod__(self, o):
+        return self._ew(o, lambda a, b: a % b, "mod")
+
+    def __floordiv__(self, o):
+        return self._ew(o, lambda a, b: a // b, "floordiv")
+
+    def __neg__(self):
+        return self._ew(0, lambda a, b: b - a, "neg")
+
+    def astype(self, dtype, *a, **k):
+        """float -> int32: truncation toward zero; the value must fit int32 (an OBLIGATION: the cast is undefined beyond)"""
+        from .builtins_ import _int
+
+        MODELS_USED.add("ndarray.astype")
+        if str(dtype) != "int32" or self.ndim != 1:
+            raise Unsupported("astype of a symbolic array to " + str(dtype))
+        out = SymNd([_int(v) for v in self.data], "int32")
+        out._check_width("astype")
+        return out
 
     @property
     def ndim(self):
@@ -146,6 +233,82 @@ class SymNd:
         if self.ndim == 1:
             return self
         return SymNd([list(col) for col in zip(*self.data)])
+
+
+class _AllTrue:
+    """result of numpy.isfinite on an array of (mathematical) reals"""
+
+    def all(self, *a, **k):
+        return True
+
+    def any(self, *a, **k):
+        return True
+
+
+class SymPts:
+    """An N x 2 float array of symbolic length N: two z3 arrays Int -> Real (columns X, Y).  What the code base does with
+    point clouds: .ndim / .shape, isfinite (A1: reals are finite), min / max along axis 0 (assumed numpy meaning: a lower
+    / upper bound that is attained; only for N >= 1 -- numpy raises on empty input)."""
+
+    ndim = 2
+
+    def __init__(self, n, cols, input_name=None):
+        self.n, self.cols, self.input_name = n, cols, input_name
+
+    @staticmethod
+    def fresh(name, min_len=0):
+        import z3
+
+        c = sym.ctx()
+        n = z3.Int(c.fresh_name(f"{name}.len"))
+        c.assume(n >= min_len, fact=True)
+        cols = [z3.Array(c.fresh_name(f"{name}.{ax}"), z3.IntSort(), z3.RealSort()) for ax in "xy"]
+        c.inputs[f"{name}.len"] = n
+        return SymPts(n, cols, input_name=name)
+
+    @property
+    def shape(self):
+        return (sym.SymInt(self.n), 2)
+
+    def point(self, k):
+        import z3
+
+        kt = sym.term_of(k)[0]
+        return sym.SymReal(z3.Select(self.cols[0], kt)), sym.SymReal(z3.Select(self.cols[1], kt))
+
+    def _extreme(self, which, axis):
+        import z3
+
+        if axis != 0:
+            raise Unsupported("min/max of a points array along this axis")
+        c = sym.ctx()
+        if sym.SymBool(self.n <= 0).__bool__():
+            raise ValueError("zero-size array to reduction operation which has no identity")
+        out = []
+        for col in self.cols:
+            m = z3.Real(c.fresh_name(which))
+            j = z3.Int(c.fresh_name("j"))
+            w = z3.Int(c.fresh_name("arg" + which))
+            bound = (m <= z3.Select(col, j)) if which == "min" else (m >= z3.Select(col, j))
+            c.assume(z3.ForAll([j], z3.Implies(z3.And(j >= 0, j < self.n), bound)), fact=True)
+            c.assume(z3.And(w >= 0, w < self.n, z3.Select(col, w) == m), fact=True)
+            out.append(sym.SymReal(m))
+        return SymNd(out)
+
+    def min(self, axis=None, **k):
+        MODELS_USED.add("ndarray.min")
+        return self._extreme("min", axis)
+
+    def max(self, axis=None, **k):
+        MODELS_USED.add("ndarray.max")
+        return self._extreme("max", axis)
+
+    def __vc_src__(self, model, c):
+        from .engine import model_value, to_src
+
+        n = max(0, min(int(model_value(model, self.n)), 8))
+        rows = ["[" + ", ".join(to_src(v, model, c) for v in self.point(k)) + "]" for k in range(n)]
+        return "np.asarray([" + ", ".join(rows) + "], dtype='float64').reshape(" + str(n) + ", 2)"
 
 
 def _m_asarray(x, dtype=None, **k):
